@@ -14,6 +14,7 @@ import (
 	kmip "github.com/ovh/kmip-go"
 	"github.com/ovh/kmip-go/kmipclient"
 	"github.com/ovh/kmip-go/payloads"
+	"github.com/ovh/kmip-go/ttlv"
 
 	"verif/harness/core"
 	"verif/harness/hooks"
@@ -27,6 +28,7 @@ type echoServer struct {
 	*script.Server
 	mu       sync.Mutex
 	held     map[string]chan struct{} // id -> release
+	push     map[string]bool          // id -> the server sends a message of its own before the response
 	received map[string]chan struct{} // id -> closed when the request reached the server
 }
 
@@ -41,11 +43,13 @@ func idOf(m *kmip.RequestMessage) string {
 }
 
 func newEcho() *echoServer {
-	e := &echoServer{held: map[string]chan struct{}{}, received: map[string]chan struct{}{}}
-	e.Server = script.NewServer(func(rx script.Received, _ *memnet.Conn) *kmip.ResponseMessage {
+	e := &echoServer{held: map[string]chan struct{}{}, received: map[string]chan struct{}{}, push: map[string]bool{}}
+	e.Server = script.NewServer(func(rx script.Received, conn *memnet.Conn) *kmip.ResponseMessage {
 		id := idOf(rx.Msg)
 		e.mu.Lock()
 		rel := e.held[id]
+		push := e.push[id]
+		delete(e.push, id)
 		if ch := e.received[id]; ch != nil {
 			close(ch)
 			delete(e.received, id)
@@ -53,6 +57,12 @@ func newEcho() *echoServer {
 		e.mu.Unlock()
 		if rel != nil {
 			<-rel
+		}
+		if push {
+			// a server-to-client request (Notify) on the same connection, ahead of the response
+			conn.Write(ttlv.MarshalTTLV(&kmip.RequestMessage{Header: kmip.RequestHeader{ProtocolVersion: kmip.V1_4, BatchCount: 1},
+				BatchItem: []kmip.RequestBatchItem{{Operation: kmip.OperationNotify, RequestPayload: kmip.NewUnknownPayload(kmip.OperationNotify,
+					ttlv.Value{Tag: kmip.TagUniqueIdentifier, Value: "pushed-for-" + id})}}}))
 		}
 		return script.OK(rx.Msg, func(int, *kmip.RequestBatchItem) kmip.OperationPayload {
 			return &payloads.ActivateResponsePayload{UniqueIdentifier: id}
@@ -80,10 +90,11 @@ const (
 	planBetweenSendAndRecv
 	planWhileServerHolds
 	planDeadline
+	planServerPush
 	nPlans
 )
 
-var planNames = []string{"none", "cancel-before-send", "cancel-at-send-loaded", "cancel-between-send-and-recv", "cancel-while-server-holds", "deadline"}
+var planNames = []string{"none", "cancel-before-send", "cancel-at-send-loaded", "cancel-between-send-and-recv", "cancel-while-server-holds", "deadline", "server-push-before-response"}
 
 type result struct {
 	id   string
@@ -117,6 +128,11 @@ func call(c *core.Ctx, cl *kmipclient.Client, srv *echoServer, ctl *hooks.Contro
 			cancel()
 			c.Count("cancel.while-server-holds", 1)
 		}()
+	case planServerPush:
+		srv.mu.Lock()
+		srv.push[id] = true
+		srv.mu.Unlock()
+		c.Count("server_pushes", 1)
 	case planDeadline:
 		var arr <-chan struct{}
 		arr, release = srv.hold(id)
@@ -253,7 +269,7 @@ func Spec() *core.Spec {
 			"while the server holds the response, 2 ms deadline}, always followed by further calls; stress: 2..32 goroutines sharing one client, 6 calls each with seeded plans (race detector on). " +
 			"distinct = distinct call histories (ids, plans, outcomes in completion order)",
 		Assumptions: []string{"cancellation instants are placed by the verif hooks client.send.loaded and client.roundtrip.sent, which sit where the scheduler may preempt anyway"},
-		Required:    []string{"calls", "calls_returning_response", "calls_returning_error", "cancel.before-send", "cancel.at-send-loaded", "cancel.between-send-and-recv", "cancel.while-server-holds", "hook.client.roundtrip.sent", "stress_rounds"},
+		Required:    []string{"calls", "calls_returning_response", "calls_returning_error", "cancel.before-send", "cancel.at-send-loaded", "cancel.between-send-and-recv", "cancel.while-server-holds", "hook.client.roundtrip.sent", "stress_rounds", "server_pushes", "calls.server-push-before-response"},
 		Shards:      func(string) int { return 8 },
 		Families: []core.Family{
 			{Name: "directed", N: func(tier string) int {
